@@ -1,0 +1,2 @@
+// Package verifexport is empty unless built with the "verif" tag.
+package verifexport
